@@ -5,7 +5,7 @@
 namespace yaclib::detail::fiber {
 
 void fiber::SharedMutex::lock() {
-  if (_occupied) {
+  while (_occupied) {
     _exclusive_queue.Wait(NoTimeoutTag{});
   }
   LockHelper();
@@ -20,18 +20,13 @@ bool SharedMutex::try_lock() noexcept {
 }
 
 void SharedMutex::unlock() noexcept {
-  const bool unlock_shared = !_shared_queue.Empty() && (_exclusive_queue.Empty() || GetRandNumber(2) == 0);
   _occupied = false;
-  if (unlock_shared) {
-    _shared_queue.NotifyAll();
-  } else {
-    _exclusive_queue.NotifyOne();
-  }
+  NotifyHelper();
 }
 
 void SharedMutex::lock_shared() {
-  if (_occupied && _exclusive_mode) {
-    _exclusive_queue.Wait(NoTimeoutTag{});
+  while (_occupied && _exclusive_mode) {
+    _shared_queue.Wait(NoTimeoutTag{});
   }
   SharedLockHelper();
 }
@@ -48,6 +43,15 @@ void SharedMutex::unlock_shared() {
   _shared_owners_count--;
   if (_shared_owners_count == 0) {
     _occupied = false;
+    NotifyHelper();
+  }
+}
+
+void SharedMutex::NotifyHelper() {
+  const bool notify_shared = !_shared_queue.Empty() && (_exclusive_queue.Empty() || GetRandNumber(2) == 0);
+  if (notify_shared) {
+    _shared_queue.NotifyAll();
+  } else {
     _exclusive_queue.NotifyOne();
   }
 }
